@@ -214,7 +214,7 @@ Item10(j) ==
                                    <<MkInput("CoinSigned", 3, p, 0, 0, 0), MkInput("Contract", 9, p, 0, 0, 0), MkInput("MessageDataPredicate", 5, p, 8, 8, 8)>>,
                                    <<MkOutput("Change", 3, p), MkOutput("Contract", 5, p), MkOutput("Variable", 9, p)>>, <<Pat(40, 8)>>))
 \* 11 (thorough): every ordered TRIPLE of input variants; 12 (thorough): message-data-predicate length cube inside transactions;
-\* 13: empty-vector cases inside transactions (the variants the wire format cannot tell apart)
+\* 13: empty-vector cases inside transactions (the variants the wire format cannot tell apart); 14, 15 (thorough): see below
 N11 == IF Thorough THEN 343 * 5 ELSE 0
 Item11(j) ==
     LET kind == TxKinds[D(j, 1, 5) + 1]
@@ -240,17 +240,46 @@ Item13(j) ==
                [] j = 7 -> MkInput("MessageDataPredicate", 3, 3, 9, 7, 0)
     IN IT("Transaction", Tx1("Script", 3, MkPol(1, 3), <<In1(1), i, In1(7)>>, <<Out1(3)>>, <<Pat(40, 9)>>))
 
-Families == 1..13
+\* 14 (thorough): a predicate variant after every input variant x predicate lengths (non-empty) x predicate-data lengths
+N14 == IF Thorough THEN 3 * 7 * 30 ELSE 0
+Item14(j) ==
+    LET pk == <<"CoinPredicate", "MessageCoinPredicate", "MessageDataPredicate">>[D(j, 1, 3) + 1]
+        a  == D(j, 3, 7) + 1
+        lp == L5[D(j, 21, 5) + 1]
+        lpd == L6[D(j, 105, 6) + 1]
+    IN IT("Transaction", MkTx("Script", 3, 7, 9, 0, 0, 0, MkPol(12, 3), <<In1(a), MkInput(pk, 31, 3, 7, lp, lpd)>>, <<Out1(1)>>, <<Pat(40, 7)>>))
+\* 15 (thorough): all 64 policy masks x every input variant
+N15 == IF Thorough THEN 64 * 7 ELSE 0
+Item15(j) == IT("Transaction", MkTx("Script", 3, 1, 0, 0, 0, 0, MkPol(D(j, 1, 64), 3), <<In1(D(j, 64, 7) + 1)>>, <<Out1(2)>>, <<>>))
+
+\* 16 (thorough): every ordered pair of input variants x every ordered pair of output kinds
+N16 == IF Thorough THEN 49 * 25 ELSE 0
+Item16(j) == IT("Transaction", MkTx("Script", 3, 8, 7, 0, 0, 0, MkPol(40, 3),
+                                    <<MkInput(InKinds[D(j, 1, 7) + 1], 3, 3, 7, 9, 1), MkInput(InKinds[D(j, 7, 7) + 1], 17, 3, 1, 8, 7)>>,
+                                    <<Out1(D(j, 49, 5) + 1), Out1(D(j, 245, 5) + 1)>>, <<Pat(40, 1)>>))
+\* 17 (thorough): three witnesses, full length cube, every chargeable kind
+N17 == IF Thorough THEN 5 * 216 ELSE 0
+Item17(j) == IT("Transaction", Tx1(TxKinds[D(j, 1, 5) + 1], 3, MkPol(3, 3), <<In1(5)>>, <<Out1(4)>>,
+                                   MkWits(<<L6[D(j, 5, 6) + 1], L6[D(j, 30, 6) + 1], L6[D(j, 180, 6) + 1]>>)))
+\* 18 (thorough): the full length cube (incl. the empty classes) of a message-data predicate after every input variant
+N18 == IF Thorough THEN 7 * 216 ELSE 0
+Item18(j) == IT("Transaction", MkTx("Script", 3, 9, 0, 0, 0, 0, MkPol(0, 3),
+                                    <<In1(D(j, 1, 7) + 1), MkInput("MessageDataPredicate", 41, 3, L6[D(j, 7, 6) + 1], L6[D(j, 42, 6) + 1], L6[D(j, 252, 6) + 1])>>,
+                                    <<>>, <<Pat(40, 9)>>))
+
+Families == 1..18
 NItems(f) == CASE f = 1 -> N1 [] f = 2 -> N2 [] f = 3 -> N3 [] f = 4 -> N4 [] f = 5 -> N5 [] f = 6 -> N6 [] f = 7 -> N7
                [] f = 8 -> N8 [] f = 9 -> N9 [] f = 10 -> N10 [] f = 11 -> N11 [] f = 12 -> N12 [] f = 13 -> N13
+               [] f = 14 -> N14 [] f = 15 -> N15 [] f = 16 -> N16 [] f = 17 -> N17 [] f = 18 -> N18
 Item(f, j) == CASE f = 1 -> Item1(j) [] f = 2 -> Item2(j) [] f = 3 -> Item3(j) [] f = 4 -> Item4(j) [] f = 5 -> Item5(j)
                 [] f = 6 -> Item6(j) [] f = 7 -> Item7(j) [] f = 8 -> Item8(j) [] f = 9 -> Item9(j) [] f = 10 -> Item10(j)
-                [] f = 11 -> Item11(j) [] f = 12 -> Item12(j) [] f = 13 -> Item13(j)
+                [] f = 11 -> Item11(j) [] f = 12 -> Item12(j) [] f = 13 -> Item13(j) [] f = 14 -> Item14(j) [] f = 15 -> Item15(j)
+                [] f = 16 -> Item16(j) [] f = 17 -> Item17(j) [] f = 18 -> Item18(j)
 
 \* which items a mode looks at: C01/C04 everything (C04: transactions and inputs/outputs only);
 \* C03: transactions, every Stride-th item (each expands into one line per field); C02: a sample of bases
 IsTxFamily(f) == f >= 5
-Stride == CASE Mode = "C03" -> (IF Thorough THEN 2 ELSE 16) [] Mode = "C02" -> (IF Thorough THEN 3 ELSE 24) [] OTHER -> 1
+Stride == CASE Mode = "C03" -> (IF Thorough THEN 6 ELSE 16) [] Mode = "C02" -> (IF Thorough THEN 9 ELSE 24) [] OTHER -> 1
 Wanted(f, j) ==
     CASE Mode = "C01" -> TRUE
       [] Mode = "C04" -> IsTxFamily(f)
